@@ -220,12 +220,17 @@ ExpandUse(st, fr, u) ==
   IN
   IF depth > Limit THEN Bad(<<"ExceedRecursiveLimit">>)
   ELSE IF i = 0 THEN Bad(<<"DefineNotFound", u.n>>)
-  ELSE LET d == st.defs[i] IN
-       IF d.none THEN Nothing
+  ELSE LET d == st.defs[i]
+           \* a macro without formals takes no argument list: a parenthesised group behind its usage is ordinary
+           \* text that survives (rescanned), also when the macro has no body or no value
+           ParenOnly == [ok |-> TRUE, err |-> <<>>, items |-> BodyItems(ParenToks(u.a[1])),
+                         tag |-> IF fr.org # NoTag THEN fr.org ELSE Tag("exp", fr.file, u.off), none |-> FALSE]
+       IN
+       IF d.none THEN (IF u.a = <<>> THEN Nothing ELSE ParenOnly)
        ELSE IF d.a # <<>> /\ u.a = <<>> THEN Bad(<<"DefineNoArgs", d.n>>)
        ELSE LET b == Bind(d.a, IF u.a = <<>> THEN <<>> ELSE u.a[1], 1, <<>>) IN
             IF ~b.ok THEN Bad(b.err)
-            ELSE IF d.b = <<>> THEN Nothing
+            ELSE IF d.b = <<>> THEN (IF d.a = <<>> /\ u.a # <<>> THEN ParenOnly ELSE Nothing)
             ELSE LET body  == Subst(Glue(d.b[1].toks), d.a, b.m)
                      paren == IF d.a = <<>> /\ u.a # <<>> THEN ParenToks(u.a[1]) ELSE <<>>
                      tag   == IF fr.org # NoTag THEN fr.org   \* bytes of a nested expansion belong to the outermost usage
